@@ -1011,6 +1011,27 @@ fn main() {
             }
         }
     }
+    // many distinct values in one histogram (a closed distribution of n entries, n around 100 and
+    // up to one value per bucket of a 3-octave stretch): each one in its own bucket (exponential)
+    // resp. kept exactly (sort-and-merge), counts 1 and 2 alternating
+    let mut many_cases = 0u64;
+    {
+        let (mut obs, mut origs) = (Vec::new(), Vec::new());
+        let first = bucket_of(&tab, 1024);
+        let mids: Vec<f64> = tab[first..].iter().take(600).map(|b| ((b.lo + b.hi) / 2) as f64 / SCALE).collect();
+        for n in [31usize, 32, 33, 99, 100, 101, 102, 128, 199, 200, 201, 255, 256, 257, 500, 600] {
+            for stride in [1usize, 2] {
+                let inputs: Vec<(f64, u64)> = mids.iter().step_by(stride).take(n).enumerate().map(|(i, v)| (*v, 1 + (i as u64 % 2))).collect();
+                if inputs.len() < n {
+                    continue;
+                }
+                exp_multiset(&mut sm_big, &inputs, &mut obs, &mut origs);
+                sm_multiset(&mut sm_big, &inputs, &mut obs, &mut origs);
+                many_cases += 2;
+            }
+        }
+    }
+    rep.set("histograms_with_many_distinct_values", many_cases);
     let sm_s = t2.elapsed().as_secs_f64();
     let (e2_multisets, sm_multisets, sm_big_cases) = (e2.multisets, sm.multisets, sm_big.multisets);
     let e2_evals = e2.evals + sm.evals + sm_big.evals;
